@@ -147,7 +147,7 @@ func c09ClientScenarios(tier string) []*Scenario {
 		scs = append(scs, &Scenario{
 			Name: "c09/h1c/" + strings.Join(nm, ","), Prop: "C09",
 			Desc: fmt.Sprintf("real tunnel client runs one Bidi RPC against a scripted raw server that answers its new_stream with %v and then ends the tunnel", nm),
-			Opt:  Options{Level: "io", Bound: 0},
+			Opt:  Options{Level: "io", Bound: c09bBound(len(fr), tier)},
 			Run: func(w *World) {
 				n := w.NewRawServerNet("T", true, func(rs *RawServerConn) error {
 					if err := rs.Send(fSettings(-1, 65536, 0, 1)); err != nil {
@@ -179,7 +179,7 @@ func c09ClientScenarios(tier string) []*Scenario {
 				// the RPC may legitimately wait forever for a close the peer never sends:
 				// once the peer has said everything and the client is quiescent, cancel it
 				w.GoLow("fault:giveup", func() {
-					w.WaitUntil("giveup", func() bool { return true })
+					w.WaitUntil("giveup", func() bool { return w.cancelOf("r1") != nil })
 					w.Log(Event{Actor: "env", Op: "giveup"})
 					if c := w.cancelOf("r1"); c != nil {
 						c()
@@ -192,6 +192,18 @@ func c09ClientScenarios(tier string) []*Scenario {
 					case <-ch.Done():
 						return true
 					default:
+					}
+					// the peer must have said everything it has to say and the client must have
+					// digested it
+					if !w.RecvLoopsIdle() {
+						return false
+					}
+					for _, th := range w.S.Threads {
+						if strings.HasPrefix(th.Name, "net:") && strings.HasSuffix(th.Name, ":handler") {
+							if !(th.Done || (th.Parked && th.Site == "raw:rpc-done")) {
+								return false
+							}
+						}
 					}
 					for _, ms := range n.Streams {
 						if len(ms.s2c) > 0 {
@@ -241,7 +253,7 @@ func c09ClientScenarios(tier string) []*Scenario {
 				gaveUp := false
 				var tunErr *Event
 				for i, e := range w.Events {
-					if e.Actor == "env" && e.Op == "giveup" && term != nil && e.Step < term.Step {
+					if e.Actor == "env" && e.Op == "giveup" && term != nil && e.Step <= term.Step {
 						gaveUp = true
 					}
 					if e.Actor == "env" && e.Op == "err" {
@@ -261,7 +273,9 @@ func c09ClientScenarios(tier string) []*Scenario {
 						bad("tunnel-level-violation-ends-tunnel", "peerc:tunnel-violation-tolerated", "the history contains a tunnel-level violation ("+spec.why+") but the channel reports no error")
 					}
 				case spec.done && spec.ok && !spec.errored:
-					if !normal {
+					if !normal && gaveUp && term.Code == "Canceled" {
+						// the harness itself gave up on the RPC before the response arrived
+					} else if !normal {
 						bad("valid-response-accepted", "peerc:valid-response-rejected:"+term.Code, fmt.Sprintf("valid response history but the RPC ended with %s(%s)", term.Code, term.Err))
 					} else if got != spec.msgs {
 						bad("valid-response-accepted", "peerc:message-count", fmt.Sprintf("caller received %d messages, the history carries %d", got, spec.msgs))
@@ -289,4 +303,11 @@ func c09ClientScenarios(tier string) []*Scenario {
 		})
 	}
 	return scs
+}
+
+func c09bBound(n int, tier string) int {
+	if n <= 2 || tier == "thorough" {
+		return 1
+	}
+	return 0
 }
